@@ -124,19 +124,26 @@ def _task_stmt(draw, names_pool, dep_pool, fault_rate):
 
 @st.composite
 def _case(draw, tier):
-    fault_rate = draw(st.sampled_from([3, 6, 12, 10 ** 6, 10 ** 6]))   # 10**6: fully well-formed file
+    # one fault class at a time most of the time, so that a single fault decides the verdict
+    scenario = draw(st.sampled_from(["wellformed", "wellformed", "include_fault_only", "include_fault_only",
+                                     "task_faults", "task_faults", "one_task_fault", "mixed"]))
+    fault_rate = 10 ** 6 if scenario in ("wellformed", "include_fault_only", "one_task_fault") else draw(st.sampled_from([3, 6, 12]))
     files = {}
     npk = draw(st.sampled_from([1, 1, 2]))
     includes = {}
     all_names = {0: [], 1: []}
+    one_fault_at = draw(st.sampled_from(range(5)))
     for p in range(npk - 1, -1, -1):
         pkg = PKGS[p]
         stmts = []
         # include directives first
-        if fault_rate >= 10 ** 6:
+        if scenario == "include_fault_only" and p == 0:
+            inc = draw(st.sampled_from(["missing", "ext", "ext2", "outside", "outside_root", "outside_symlink", "dir", "nested",
+                                        "defines_task", "syntax", "runtime", "nonstr"]))
+        elif scenario != "mixed":
             inc = draw(st.sampled_from(["none", "none", "ok", "ok_abs"]))
         else:
-            inc = draw(st.sampled_from(["none"] * 12 + ["ok", "ok_abs", "missing", "ext", "outside", "outside", "outside_root", "outside_symlink", "dir", "nested",
+            inc = draw(st.sampled_from(["none"] * 12 + ["ok", "ok_abs", "missing", "ext", "ext2", "outside", "outside", "outside_root", "outside_symlink", "dir", "nested",
                                                         "defines_task", "syntax", "runtime", "nonstr"]))
         uses_threads = False
         if inc != "none":
@@ -153,7 +160,10 @@ def _case(draw, tier):
             later = [":" + eval(x) for x in planned[i + 1:] if x != planned[i]]
             other = ["//p:" + eval(x) for x in all_names[1]] if p == 0 and npk == 2 else []
             dep_pool = list(dict.fromkeys(later + other + (["//%s:%s" % (pkg, eval(planned[-1]))] if i < n - 1 and planned[-1] != planned[i] else [])))
-            s = draw(_task_stmt([planned[i]], dep_pool, fault_rate))
+            fr = fault_rate
+            if scenario == "one_task_fault" and p == 0 and i == one_fault_at % n:
+                fr = 1
+            s = draw(_task_stmt([planned[i]], dep_pool, fr))
             if not uses_threads:
                 for kv in s["kwargs"]:
                     if "THREADS" in kv[1]:
@@ -162,7 +172,7 @@ def _case(draw, tier):
             s["form"] = form
             stmts.append(s)
             # python-level fault statements, sometimes
-            if draw(st.sampled_from(range(fault_rate * 3))) == 0:
+            if fault_rate < 10 ** 6 and draw(st.sampled_from(range(fault_rate * 3))) == 0:
                 stmts.append({"t": "py", "code": draw(st.sampled_from(
                     ["x = 1 / 0", "raise ValueError('boom')", "import not_a_module_xyz", "undefined_name_zz",
                      "def (:", "x = [", "assert False, 'nope'", "int('x')", "{}['missing']", "run_command()"]))})
@@ -206,6 +216,8 @@ def include_line(how, pkg):
         return "include('nope.cond')"
     if how == "ext":
         return "include('common.py')"
+    if how == "ext2":
+        return "include('common.cond.py')"
     if how == "outside":
         return "include('../' * 12 + 'etc/outside.cond')" if False else "include('../outside.cond')" if pkg else "include('../vf-outside.cond')"
     if how == "outside_root":
@@ -256,8 +268,8 @@ def write(root, case):
                 if how in ("nested",):
                     with open(os.path.join(d, "common.cond"), "w") as f:
                         f.write("THREADS = 3\n")
-                if how == "ext":
-                    with open(os.path.join(d, "common.py"), "w") as f:
+                if how in ("ext", "ext2"):
+                    with open(os.path.join(d, "common.py" if how == "ext" else "common.cond.py"), "w") as f:
                         f.write("THREADS = 3\n")
                 if how == "dir":
                     os.makedirs(os.path.join(d, "adir.cond"), exist_ok=True)
@@ -402,6 +414,10 @@ def run_case(case):
                      if s["t"] == "py" or (s["t"] == "include" and s["how"] not in ("ok", "ok_abs")))
         if any(s["t"] == "include" and s["how"] in ("ok", "ok_abs") for stmts in case["files"].values() for s in stmts):
             labels.add("include_ok")
+        for stmts in case["files"].values():
+            for s_ in stmts:
+                if s_["t"] == "include":
+                    labels.add("include:" + s_["how"])
         if any(s.get("form") in ("loop", "func", "comp") for stmts in case["files"].values() for s in stmts):
             labels.add("ctor_in_loop_or_func")
         ntasks = sum(1 for stmts in case["files"].values() for s in stmts if s["t"] == "task")
